@@ -69,6 +69,10 @@ func (c *GenericNumberState) NextToken(
 
 	// Process the result.
 	if !gotADigit {
+		// The end-of-input slot was consumed as well and has to be put back first.
+		if utilities.CharValidator.IsEof(nextSymbol) {
+			scanner.Unread()
+		}
 		scanner.UnreadMany(tokenValue.Len())
 		if tokenizer != nil && tokenizer.SymbolState() != nil {
 			return tokenizer.SymbolState().NextToken(scanner, tokenizer)
